@@ -637,10 +637,10 @@ def run_date_units(case, ctx):
     operators, reindex and set operations pair by instant.'''
     days = ('2020-01-01', '2020-01-02', '2020-01-03', '2020-02-01')
     val = {d: i + 1 for i, d in enumerate(days)}
-    ctors = {'D': sf.IndexDate, 'h': sf.IndexHour, 's': sf.IndexSecond}
+    ctors = {'D': sf.IndexDate, 'h': sf.IndexHour, 's': sf.IndexSecond, 'ns': sf.IndexNanosecond}
     seqs = [p for n in (1, 2, 3) for p in itertools.permutations(days[:4], n) if n < 3 or '2020-02-01' not in p or True][:]
     seqs = [p for p in seqs if len(p) <= 3]
-    for ua, ub in (('D', 's'), ('s', 'D'), ('D', 'h'), ('h', 's')):
+    for ua, ub in (('D', 's'), ('s', 'D'), ('D', 'h'), ('h', 's'), ('D', 'ns'), ('ns', 's'), ('ns', 'ns')):
         for sa, sb in itertools.product(seqs, repeat=2):
             if len(sa) + len(sb) > 5:
                 continue
